@@ -9,7 +9,8 @@ from . import c01_enc as E
 from . import c01_str as T
 
 CHECKS = ("decompose-custom-keys", "profile-full", "with-topology", "graph-to-mol-custom-names",
-          "implicit-hydrogen-reindex", "construct-extended-node-attrs", "construct-instance-vs-class", "sanitize-false-bonds")
+          "implicit-hydrogen-reindex", "construct-extended-node-attrs", "construct-instance-vs-class", "sanitize-false-bonds",
+          "absent-attribute-is-default")
 
 
 def _same_graph(A, B, keys=("element", "aromatic", "hcount", "charge", "atom_map")):
@@ -120,6 +121,23 @@ def run_checks(rsmi):
         ok = ok and set(X0.nodes) == set(X1.nodes) and {frozenset(e) for e in X0.edges} == {frozenset(e) for e in X1.edges} \
             and all(X0.nodes[n]["element"] == X1.nodes[n]["element"] and X0.nodes[n]["charge"] == X1.nodes[n]["charge"] for n in X0.nodes)
     out.append(("sanitize-false-bonds", bool(ok), ""))
+
+    # an attribute absent on some atoms of one side only = the documented default value written out
+    Ga, Gd = G.copy(), G.copy()
+    for k, n in enumerate(sorted(Ga.nodes)):
+        key = ("hcount", "charge", "aromatic", "neighbors")[k % 4]
+        if k % 3 == 0:
+            del Ga.nodes[n][key]
+            Gd.nodes[n][key] = {"hcount": 0, "charge": 0, "aromatic": False, "neighbors": ["", ""]}[key]
+    ok = True
+    for kw in (dict(), dict(ignore_aromaticity=True, balance_its=True), dict(store=True)):
+        A1, A2 = ITSConstruction.ITSGraph(Ga, H, **kw), ITSConstruction.ITSGraph(Gd, H, **kw)
+        ok = ok and all(A1.nodes[n]["typesGH"] == A2.nodes[n]["typesGH"] for n in A1.nodes) and set(A1.nodes) == set(A2.nodes) \
+            and {frozenset(e): (A1.edges[e]["order"], A1.edges[e]["standard_order"]) for e in A1.edges} == \
+                {frozenset(e): (A2.edges[e]["order"], A2.edges[e]["standard_order"]) for e in A2.edges}
+        d1, d2 = its_decompose(A1), its_decompose(A2)
+        ok = ok and _same_graph(d1[0], d2[0]) and _same_graph(d1[1], d2[1])
+    out.append(("absent-attribute-is-default", bool(ok), ""))
     return out
 
 
